@@ -22,6 +22,7 @@ import M4riProofs.GenTieStrassen2
 import M4riProofs.GenTieClose3
 import M4riProofs.GenTieMul
 import M4riProofs.GenTieVa
+import M4riProofs.GenTieClose5
 namespace M4ri.Props.C01
 open M4ri M4ri.BMat
 
@@ -172,3 +173,13 @@ end M4ri.Props.C01
 #check @M4ri.GenTieVa.mzdMulVa_eq
 #check @M4ri.GenTieVa.mzdMulVa_spec
 #check @M4ri.GenTieVa.mzdMulVa_eq_putB
+
+/-! ### THE STRASSEN RECURSION OVER THE GENERATED `_mzd_add` (GenTieClose5.lean): `cStrassenG hd n` = the four generated routines bound to each other n
+    levels deep with the addition callee bound to the GENERATED `_mzd_add` (`genAdd`; a closed form of the generated text on ARBITRARY memories,
+    `addCore_mem`, gives its locality) instead of the lifted model addition: still A*B, C + A*B, A*A, C + A*A for every depth -/
+#check @M4ri.GenTieClose5.genAdd_agree
+#check @M4ri.GenTieClose5.cStrassenA_cAdd
+#check @M4ri.GenTieClose5.cMulG_correct
+#check @M4ri.GenTieClose5.cAddmulG_correct
+#check @M4ri.GenTieClose5.cSqrG_correct
+#check @M4ri.GenTieClose5.cAddsqrG_correct
